@@ -28,8 +28,20 @@ MODES = {
     'BaseException_subclass': "class E(BaseException):\n    pass\nraise E('x')\n",
     'assertion': "assert False, 'nope'\n",
     'stop_iteration': "next(iter([]))\n",
+    'stdout_closed': "import sys\nprint('x')\nsys.stdout.close()\n",
+    'stdout_closed_then_error': "import sys\nsys.stdout.close()\n1/0\n",
+    'raise_SyntaxError': "raise SyntaxError('boo')\n",
+    'setattr_broken': "class Frozen(Exception):\n    def __setattr__(self, k, v):\n        raise TypeError('frozen')\nraise Frozen()\n",
+    'exit_setattr_broken': "class Frozen2(SystemExit):\n    def __setattr__(self, k, v):\n        raise TypeError('frozen')\nraise Frozen2()\n",
+    'own_settrace': "import sys\nsys.settrace(None)\nx = 1\n",
+    'IndentationError': "if True:\nx = 1\n",
+    'TabError': "if True:\n\tx = 1\n        y = 2\n",
+    'finally_after_raise': "try:\n    1/0\nfinally:\n    x = 1\n    y = 2\n",
+    'reraise_after_cleanup': "try:\n    int('x')\nexcept ValueError:\n    z = 0\n    z = 1\n    raise\n",
+    'raise_in_function': "def g():\n    return [][1]\ndef h():\n    v = g()\n    return v\nh()\n",
 }
-CONTAINED = [m for m in MODES if m not in ('KeyboardInterrupt', 'GeneratorExit', 'BaseException_subclass', 'normal')]
+CONTAINED = [m for m in MODES if m not in ('KeyboardInterrupt', 'GeneratorExit', 'BaseException_subclass', 'normal',
+                                           'stdout_closed', 'own_settrace')]
 ESCAPING = ['KeyboardInterrupt', 'GeneratorExit', 'BaseException_subclass']
 
 
@@ -44,7 +56,7 @@ def diff(a, b):
         out.append('sys.stdout not restored')
     if a['sleep'] is not b['sleep']:
         out.append('time.sleep not restored')
-    if a['trace'] is not b['trace']:
+    if a['trace'] is not b['trace'] and a.get('check_trace', True) and b.get('check_trace', True):
         out.append('trace function not restored')
     if a['patches'] != b['patches']:
         out.append('patch stack %d -> %d' % (a['patches'], b['patches']))
@@ -71,6 +83,9 @@ def fresh(tracer):
 
 def execute(sb, entry, mode):
     code = MODES[mode]
+    if entry == 'run_with_import':
+        sb.report.submission.files['helper.py'] = code
+        return sb.run("import helper\n", filename='answer.py')
     if entry == 'run':
         return sb.run(code, filename='answer.py')
     if entry == 'call':
@@ -87,9 +102,12 @@ def one(entry, mode, tracer, prop):
         sb, report = fresh(tracer)
     except Exception as e:
         return [('setup', 'tracer %s unavailable: %s' % (tracer, e))] if False else []
-    if entry != 'run' and mode in ('SyntaxError', 'import_pedal'):
+    if entry not in ('run',) and mode in ('SyntaxError', 'import_pedal', 'IndentationError', 'TabError'):
+        return []
+    if entry == 'run_with_import' and mode in ('stdout_closed', 'stdout_closed_then_error'):
         return []
     before = snapshot(sb)
+    before['check_trace'] = (tracer == 'native')
     n_rt = len([f for f in report.feedback + report.ignored_feedback if f.category == 'runtime'])
     escaped = None
     try:
@@ -112,8 +130,10 @@ def one(entry, mode, tracer, prop):
                 if fb.fields.get('exception_name') != want:
                     fails.append(('describes_class', '%s/%s/%s: feedback names %r, exception is %s' % (
                         entry, mode, tracer, fb.fields.get('exception_name'), want)))
-                if entry == 'run' and mode in ('ValueError', 'ZeroDivision', 'NameError', 'KeyError', 'assertion'):
-                    line = {'ValueError': 1, 'ZeroDivision': 2, 'NameError': 1, 'KeyError': 2, 'assertion': 1}[mode]
+                lines_ = {'ValueError': 1, 'ZeroDivision': 2, 'NameError': 1, 'KeyError': 2, 'assertion': 1,
+                          'finally_after_raise': 2, 'reraise_after_cleanup': 2, 'raise_in_function': 2}
+                if entry == 'run' and mode in lines_:
+                    line = lines_[mode]
                     if getattr(fb.location, 'line', None) != line:
                         fails.append(('student_line', '%s/%s: located at %r, raised on line %d' % (
                             entry, mode, getattr(fb.location, 'line', None), line)))
@@ -137,7 +157,10 @@ def bounded(arg):
     failures, samples = [], []
     evaluations = 0
     distinct = set()
-    for entry, mode, tracer in itertools.product(('run', 'call', 'evaluate'), MODES, tracers):
+    tracers = ['none', 'native'] if True else tracers
+    for entry, mode, tracer in itertools.product(('run', 'call', 'evaluate', 'run_with_import'), MODES, tracers):
+        if quick and tracer == 'native' and entry in ('call', 'evaluate'):
+            continue
         evaluations += 1
         distinct.add((entry, mode, tracer))
         try:
@@ -154,8 +177,8 @@ def bounded(arg):
                 canon += ' (' + mode + ')'
             failures.append({'id': what, 'canon': canon, 'detail': detail, 'entry': entry, 'mode': mode})
     # sequences of executions: the stacks stay empty
-    return {'name': 'B-sandbox', 'bound': 'exhaustive product of %d termination modes x 3 entry points x %d tracer styles' % (
-        len(MODES), len(tracers)), 'evaluations': evaluations, 'distinct_nontrivial': len(distinct), 'exhaustive': True,
+    return {'name': 'B-sandbox', 'bound': 'product of %d termination modes x 4 entry points (run, call, evaluate, run with a nested '
+            'import of a second student file) x tracer styles none/native' % len(MODES), 'evaluations': evaluations, 'distinct_nontrivial': len(distinct), 'exhaustive': True,
         'rule': 'distinct = (entry point, termination mode, tracer)', 'samples': samples, 'failures': failures}
 
 
@@ -165,9 +188,9 @@ def ground(arg):
 
 def replay(case):
     prop = 'C04' if 'c04' in case.get('target', '') else 'all'
-    for entry in ('run', 'call', 'evaluate'):
+    for entry in ('run', 'call', 'evaluate', 'run_with_import'):
         for mode in MODES:
-            fails = one(entry, mode, 'none', 'all')
+            fails = one(entry, mode, 'none', 'all') or one(entry, mode, 'native', 'all')
             if fails:
                 what, detail = fails[0]
                 return {'confirmed': True, 'canon': what + (' (non-Exception class)' if mode in ESCAPING else ''),
